@@ -10,6 +10,7 @@ import (
 	"os"
 	"runtime"
 	"strconv"
+	"strings"
 	"sync"
 	"sync/atomic"
 	"time"
@@ -183,9 +184,87 @@ func verifWakePoint() {
 	}
 }
 
+type verifBlocked struct {
+	Gor    int    `json:"gor"`
+	Pos    string `json:"pos"`
+	Parent int    `json:"parent"`
+	Site   string `json:"site"`
+	Occ    int    `json:"occ"`
+}
+
 type verifReplayFile struct {
 	Nondets map[string]string `json:"nondets"`
 	Entries []verifSchedEntry `json:"schedule_entries"`
+	Blocked []verifBlocked    `json:"blocked"`
+}
+
+// last scheduling point each goroutine passed (for confirming a stuck-state counterexample)
+var verifLast struct {
+	mu  sync.Mutex
+	pos map[int64]string
+}
+
+func verifNotePoint(pos string) {
+	verifLast.mu.Lock()
+	if verifLast.pos == nil {
+		verifLast.pos = map[int64]string{}
+	}
+	verifLast.pos[verifGoid()] = pos
+	verifLast.mu.Unlock()
+}
+
+// verifCheckStuck: after the schedule has been replayed and the program has settled, every goroutine the
+// counterexample leaves blocked must still exist and must have passed, as its last scheduling point,
+// the operation the counterexample says it is blocked in.
+func verifCheckStuck() {
+	if len(verifCtl.blocked) == 0 {
+		return
+	}
+	buf := make([]byte, 1<<20)
+	n := runtime.Stack(buf, true)
+	alive := map[int64]bool{}
+	for _, ln := range strings.Split(string(buf[:n]), "\n") {
+		if strings.HasPrefix(ln, "goroutine ") {
+			var id int64
+			for _, ch := range ln[10:] {
+				if ch < '0' || ch > '9' {
+					break
+				}
+				id = id*10 + int64(ch-'0')
+			}
+			alive[id] = true
+		}
+	}
+	verifIDs.mu.Lock()
+	byID := map[int]int64{}
+	for goid, id := range verifIDs.byGoid {
+		byID[id] = goid
+	}
+	verifIDs.mu.Unlock()
+	verifLast.mu.Lock()
+	defer verifLast.mu.Unlock()
+	confirmed, unknown := 0, 0
+	for _, b := range verifCtl.blocked {
+		goid, ok := byID[b.Gor]
+		if !ok || (b.Site == "" && b.Gor != 0) {
+			unknown++
+			continue
+		}
+		if !alive[goid] {
+			fmt.Printf("VERIF-STUCK-NOT-CONFIRMED goroutine g%d has finished\n", b.Gor)
+			return
+		}
+		if verifLast.pos[goid] != b.Pos {
+			fmt.Printf("VERIF-STUCK-NOT-CONFIRMED goroutine g%d is at %s, expected %s\n", b.Gor, verifLast.pos[goid], b.Pos)
+			return
+		}
+		confirmed++
+	}
+	if confirmed > 0 {
+		fmt.Printf("VERIF-STUCK-CONFIRMED %d goroutine(s) blocked as predicted (%d without native identity)\n", confirmed, unknown)
+	} else {
+		fmt.Printf("VERIF-STUCK-NOT-CONFIRMED no blocked goroutine has a native identity\n")
+	}
 }
 
 // Schedule replay controller: goroutines pass verifPoint(pos) in the order of the solver's schedule.
@@ -201,6 +280,7 @@ var verifCtl struct {
 	active   bool
 	diverged bool
 	arrived  time.Time
+	blocked  []verifBlocked
 }
 
 const (
@@ -217,6 +297,7 @@ func verifCtlAdvance() {
 func verifPoint(pos string) {
 	c := &verifCtl
 	verifLoad()
+	defer verifNotePoint(pos)
 	if os.Getenv("VERIF_TRACE") != "" {
 		fmt.Printf("VERIF-POINT %s (cursor %d)\n", pos, c.cur)
 	}
@@ -294,6 +375,7 @@ func verifLoad() {
 		for k, v := range f.Nondets {
 			verifRT.vals[k] = v
 		}
+		verifCtl.blocked = f.Blocked
 		if len(f.Entries) > 0 {
 			verifCtl.entries = f.Entries
 			verifCtl.remain = map[string]int{}
